@@ -32,7 +32,7 @@ unsafe impl GlobalAlloc for Counting {
         unsafe { System.realloc(p, l, n) }
     }
 }
-fn measure<T>(f: impl FnOnce() -> T) -> (T, usize) {
+pub fn measure<T>(f: impl FnOnce() -> T) -> (T, usize) {
     let base = CUR.load(Ordering::Relaxed);
     PEAK.store(base, Ordering::Relaxed);
     let r = f();
